@@ -78,6 +78,9 @@ class ModbusBinaryFramer(ModbusFramer):
 
         end = self._buffer.find(self._end)
         if end != -1:
+            if end < 5:
+                # too short for start, unit, function and CRC: delimiter debris
+                return False
             self._header['len'] = end
             self._header['uid'] = struct.unpack('>B', self._buffer[1:2])[0]
             self._header['crc'] = struct.unpack('>H', self._buffer[end - 2:end])[0]
